@@ -48,6 +48,7 @@ type c18HCase struct {
 	Delay     int  `json:"cleaner_delay"` // streamer operations completed before the first clean-up starts
 	Other     int  `json:"other_class"`   // the other class: 0 off, 1 unbounded map, 2 LRU
 	Reps      int  `json:"reps"`          // independent rounds (fresh tester each)
+	Dup       bool `json:"dup,omitempty"` // duplicate-probe round instead (see c18HDupRound)
 }
 
 func (c c18HCase) conf() c18Conf {
@@ -307,6 +308,160 @@ func c18HRound(c c18HCase, st map[string]bool) (string, string) {
 	return "", ""
 }
 
+// c18HDupRound: duplicate probes of one phantom finishing at the same moment. `Streamers`
+// goroutines walk the SAME list of never-seen addresses (at most the capacity, so nothing is
+// evicted during the burst): all of them miss, probe and store the same address at about the same
+// time. Afterwards, at quiescence, `capacity` further never-seen addresses are pushed through one
+// after another, so the LRU lets go of every address of the burst; then, as in the other round:
+// none of them may be answered from the cache, Len() <= capacity, verdict map subset of LRU keys.
+func c18HDupRound(c c18HCase, st map[string]bool) (string, string) {
+	ci := c18Ci(c.Live)
+	cn := c18ClassName[ci]
+	op := &c18Op{Kind: "q", Live: c.Live}
+	wantErr := c18Err(op)
+	slots := make([]*c18HSlot, c.Streamers+1)
+	for i := range slots {
+		slots[i] = &c18HSlot{}
+	}
+	probe := func(address string) (bool, error) {
+		_, ps, err := net.SplitHostPort(address)
+		p, err2 := strconv.Atoi(ps)
+		if err == nil && err2 == nil && p >= c18HPortBase && p-c18HPortBase < len(slots) {
+			slots[p-c18HPortBase].calls++
+		}
+		runtime.Gosched() // the probe is where the tester holds no lock: let the others catch up
+		return c.Live, wantErr
+	}
+	s, err := c18Build(c.conf(), probe)
+	if err != nil {
+		return "harness", err.Error()
+	}
+	// returns (key, msg, served-from-cache)
+	query := func(slot int, addr string) (string, string, bool) {
+		sl := slots[slot]
+		sl.calls = 0
+		live, err, pv := c18Call(s.t, addr, uint16(c18HPortBase+slot))
+		switch {
+		case pv != "":
+			return "panic", fmt.Sprintf("PhantomIsLive(%s) panicked: %s", addr, pv), false
+		case sl.calls == 0:
+			if err != ErrCachedPhantom {
+				return "unprobed-answer", fmt.Sprintf("query %s returned (%v, %v) without probing and without ErrCachedPhantom", addr, live, err), false
+			}
+			if live != c.Live {
+				return "flipped", fmt.Sprintf("query %s answered %q from the cache, the only verdict ever measured is %q", addr, c18ClassName[c18Ci(live)], cn), false
+			}
+			return "", "", true
+		case sl.calls == 1:
+			if live != c.Live || err != wantErr {
+				return "probe-result-altered", fmt.Sprintf("query %s: probe said (%v, %v), PhantomIsLive returned (%v, %v)", addr, c.Live, wantErr, live, err), false
+			}
+		default:
+			return "probed-more-than-once", fmt.Sprintf("query %s made %d probe calls", addr, sl.calls), false
+		}
+		return "", "", false
+	}
+	m := c.PerStream
+	if m > c.Cap {
+		m = c.Cap
+	}
+	var wg sync.WaitGroup
+	start := make(chan struct{})
+	sv := make([][2]string, c.Streamers)
+	var dupProbes int64
+	for w := 0; w < c.Streamers; w++ {
+		wg.Add(1)
+		go func(w int) {
+			defer wg.Done()
+			<-start
+			for j := 0; j < m; j++ {
+				k, msg, cached := query(w+1, c18HAddr(j))
+				if k != "" {
+					sv[w] = [2]string{k, msg}
+					return
+				}
+				if !cached {
+					atomic.AddInt64(&dupProbes, 1)
+				}
+			}
+		}(w)
+	}
+	close(start)
+	wg.Wait()
+	for _, v := range sv {
+		if v[0] != "" {
+			return v[0], v[1]
+		}
+	}
+	if dupProbes > int64(m) {
+		st["same-address-probed-concurrently"] = true
+	}
+	// quiescent: flush the LRU with `capacity` never-seen addresses
+	for i := 0; i < c.Cap; i++ {
+		a := c18HAddr(m + i)
+		k, msg, cached := query(0, a)
+		if k != "" {
+			return k, msg
+		}
+		if cached {
+			return "served-unmeasured", fmt.Sprintf("flush: never-measured address %s answered from the cache", a)
+		}
+	}
+	cc := s.cacheOf(ci)
+	if cc == nil {
+		return "", ""
+	}
+	lenAfter := cc.Len()
+	lc, isLRU := cc.(*lruCache)
+	if !isLRU {
+		if lenAfter > c.Cap {
+			return "unbounded:" + cn, fmt.Sprintf("the %s cache holds %d entries, configured capacity %d (built as an unbounded map)", cn, lenAfter, c.Cap)
+		}
+		return "", ""
+	}
+	tracked := map[string]bool{}
+	for _, k := range lc.lru.Keys() {
+		tracked[k.(string)] = true
+	}
+	untracked := 0
+	lc.m.RLock()
+	for k := range lc.ipCache {
+		if !tracked[k] {
+			untracked++
+		}
+	}
+	lc.m.RUnlock()
+	served, first := 0, ""
+	for j := 0; j < m; j++ {
+		a := c18HAddr(j)
+		if tracked[a] {
+			continue
+		}
+		st["evicted-requeried"] = true
+		k, msg, cached := query(0, a)
+		if k != "" {
+			return k, msg
+		}
+		if cached {
+			served++
+			if first == "" {
+				first = a
+			}
+		}
+	}
+	what := fmt.Sprintf("after %d goroutines had queried the same %d never-seen addresses concurrently and %d further addresses had then been pushed through (quiescent)", c.Streamers, m, c.Cap)
+	if served > 0 {
+		return "evicted-served:" + cn, fmt.Sprintf("%s, %d address(es) the LRU no longer tracked and that had not been probed since were answered from the cache, first %s; the %s cache held %d entries (capacity %d), %d not tracked by the LRU", what, served, first, cn, lenAfter, c.Cap, untracked)
+	}
+	if lenAfter > c.Cap {
+		return "overfull:" + cn, fmt.Sprintf("%s the %s cache holds %d entries, configured capacity %d (%d not tracked by the LRU)", what, cn, lenAfter, c.Cap, untracked)
+	}
+	if untracked > 0 {
+		return "untracked-entry:" + cn, fmt.Sprintf("%s the %s verdict map holds %d entr(ies) the LRU does not track: they can never be evicted again", what, cn, untracked)
+	}
+	return "", ""
+}
+
 // c18ShiftKeys makes the stored measurements of the given keys d older (quiescent use only).
 func c18ShiftKeys(c cache, keys map[string]bool, d time.Duration) error {
 	var m map[string]*cacheElement
@@ -353,6 +508,10 @@ func c18HGen(rt *rapid.T) c18HCase {
 		maxDelay = 0
 	}
 	c.Delay = rapid.IntRange(0, maxDelay).Draw(rt, "cleaner_delay")
+	c.Dup = rapid.IntRange(0, 2).Draw(rt, "dup") == 0
+	if c.Dup && c.Streamers < 2 {
+		c.Streamers = 2
+	}
 	c.Reps = 1024 / c.Cap
 	if c.Reps < 1 {
 		c.Reps = 1
@@ -374,14 +533,20 @@ func c18HCheck(t vh.Fataler, rec *vh.Rec, c c18HCase) {
 		reps = 1
 	}
 	for r := 0; r < reps && key == ""; r++ {
-		key, msg = c18HRound(c, st)
+		if c.Dup {
+			st["mode:duplicate-probes"] = true
+			key, msg = c18HDupRound(c, st)
+		} else {
+			st["mode:cleanup-vs-evictions"] = true
+			key, msg = c18HRound(c, st)
+		}
 	}
 	classes := make([]string, 0, len(st)+1)
 	for k := range st {
 		classes = append(classes, k)
 	}
 	classes = append(classes, fmt.Sprintf("cap=%d", c.Cap))
-	rec.Case(st["eviction-overlapped-effective-cleanup"], vh.Digest(c), c, classes...)
+	rec.Case(st["eviction-overlapped-effective-cleanup"] || st["same-address-probed-concurrently"], vh.Digest(c), c, classes...)
 	if key == "harness" {
 		t.Fatalf("harness problem: %s", msg)
 	}
@@ -391,9 +556,9 @@ func c18HCheck(t vh.Fataler, rec *vh.Rec, c c18HCase) {
 }
 
 func TestVerif_C18_hammer(t *testing.T) {
-	rec := vh.NewRec("C18", "hammer", "rapid-generated rounds on an LRU-backed class (capacity 8-2048, live or non-live, other class off/map/LRU): fill to capacity, age the most recently stored 1..C/4 entries past the lifetime at quiescence, then 1-6 goroutines stream C/8..C/2 never-seen addresses each (constant evictions of fresh entries) while a goroutine runs ClearExpiredCache continuously from a drawn point of the burst on; judged at quiescence: every address the LRU no longer tracks is probed again when queried, Len() <= capacity, verdict map subset of the LRU's keys; -race build; the interleaving is the Go scheduler's (sampled); non-trivial = streamer operations completed while the clean-up that had expired entries to find was running; distinct by case")
+	rec := vh.NewRec("C18", "hammer", "rapid-generated rounds on an LRU-backed class (capacity 8-2048, live or non-live, other class off/map/LRU): fill to capacity, age the most recently stored 1..C/4 entries past the lifetime at quiescence, then 1-6 goroutines stream C/8..C/2 never-seen addresses each (constant evictions of fresh entries) while a goroutine runs ClearExpiredCache continuously from a drawn point of the burst on; judged at quiescence: every address the LRU no longer tracks is probed again when queried, Len() <= capacity, verdict map subset of the LRU's keys; -race build; the interleaving is the Go scheduler's (sampled); a third of the rounds are duplicate-probe rounds instead: 2-6 goroutines query the SAME never-seen addresses concurrently (all miss, probe and store one address at the same moment), then a capacity's worth of further addresses is pushed through at quiescence and the same three invariants are judged; non-trivial = streamer operations completed while the clean-up that had expired entries to find was running, or one address was probed by several goroutines; distinct by case")
 	defer rec.Flush()
-	rec.Require("eviction-overlapped-effective-cleanup", "cleanup-removed-aged", "evicted-requeried", "at-capacity")
+	rec.Require("eviction-overlapped-effective-cleanup", "cleanup-removed-aged", "evicted-requeried", "at-capacity", "mode:duplicate-probes", "same-address-probed-concurrently")
 	if p := vh.ReplayFile(); p != "" {
 		var c c18HCase
 		if _, _, err := vh.LoadReplay(p, &c); err != nil {
